@@ -23,8 +23,8 @@ if False:
     from .project import Project
 
 IMPORT_DELIMETERS = string.whitespace + '(,'
-IMPORT_END_DELIMETERS = string.whitespace + '),.;'
-DEF_END_DELIMETERS = string.whitespace + '(:['
+IMPORT_END_DELIMETERS = string.whitespace + '),.;#\\'
+DEF_END_DELIMETERS = string.whitespace + '(:[#\\'
 
 
 class Unresolved(object):
